@@ -248,6 +248,11 @@ static json::Value sx(Ctx &C, const Stmt *S, int d) {
   }
   if (auto *BO = dyn_cast<BinaryOperator>(E))
     return arr({"op", BO->getOpcodeStr().str(), sx(C, BO->getLHS(), d - 1), sx(C, BO->getRHS(), d - 1)});
+  if (auto *RB = dyn_cast<CXXRewrittenBinaryOperator>(E)) {
+    // C++20: `a != b` rewritten to `!(a == b)` (or reversed operands): report the operator as written
+    auto DF = RB->getDecomposedForm();
+    return arr({"opc", BinaryOperator::getOpcodeStr(DF.Opcode).str(), sx(C, DF.LHS, d - 1), sx(C, DF.RHS, d - 1)});
+  }
   if (auto *UO = dyn_cast<UnaryOperator>(E)) {
     std::string op = UnaryOperator::getOpcodeStr(UO->getOpcode()).str();
     if (UO->isPostfix()) op = "post" + op;
